@@ -487,7 +487,8 @@ public:
     if (graphidToE_.size() < newGraphEdge + 1)
       graphidToE_.resize(newGraphEdge + 1);
     graphidToE_.at(newGraphEdge) = edgeObject;
-    EToGraphid_[edgeObject] = newGraphEdge;
+    if (edgeObject != 00)
+      EToGraphid_[edgeObject] = newGraphEdge;
   }
 
 
